@@ -11,6 +11,15 @@ has_hardlink_to = sys.version_info.major == 3 and sys.version_info.minor >= 10
 def shallow_copy(src_path: Path, dest_path: Path):
     """Copy a directory or file, trying to use hard links if possible"""
     if src_path.is_file():
+        if dest_path.exists() or dest_path.is_symlink():
+            if dest_path.exists() and dest_path.samefile(src_path):
+                # Already there (e.g. saved a second time in the same folder)
+                return
+
+            # Never write through an existing file: it might be a hard link to
+            # the data of another configuration
+            dest_path.unlink()
+
         try:
             if has_hardlink_to:
                 dest_path.hardlink_to(src_path)
